@@ -21,8 +21,35 @@ var hooksThatMustQueue = map[string]string{
 	"keeper.Hooks.BeforeValidatorSlashed":       "slash burns validator tokens",
 }
 
+// queueCalls: call sites in fn that schedule a rebalance: direct calls of QueueAssetRebalanceEvent, or calls of an
+// in-scope helper all of whose success paths do (wrappers are followed to depth 3).
 func queueCalls(fn *ssa.Function) []ssa.Instruction {
-	return callsAsInstrs(CallsTo(fn, qRebalance))
+	return mustCallSites(curEngine, fn, qRebalance, 0)
+}
+
+var curEngine *Engine
+
+func mustCallSites(e *Engine, fn *ssa.Function, target string, depth int) []ssa.Instruction {
+	var out []ssa.Instruction
+	for _, c := range Calls(fn) {
+		k := CalleeKey(c.Common())
+		if k == target {
+			out = append(out, c)
+			continue
+		}
+		callee := c.Common().StaticCallee()
+		if e == nil || depth >= 3 || callee == nil || callee.Blocks == nil || callee.Pkg == nil || !smPkgs[callee.Pkg.Pkg.Path()] || callee == fn {
+			continue
+		}
+		inner := mustCallSites(e, callee, target, depth+1)
+		if len(inner) == 0 {
+			continue
+		}
+		if e.FA(callee).MustFollow(callee.Blocks[0].Instrs[0], inner) == nil {
+			out = append(out, c)
+		}
+	}
+	return out
 }
 
 func init() {
